@@ -308,11 +308,24 @@ func c14Sequential(r *simrt.Run, w *nomsim.World, wl *nomsim.Workload) {
 					r.Probe("forced-insert")
 					ops++
 				}
-			case 5: // a momentum: P confirms what X's pool holds for some accounts (its own gossip), others stay pooled
+			case 5: // a momentum: P confirms what X's pool holds for some accounts (its own gossip), others stay pooled;
+				// for some accounts P confirms a CONFLICTING block (a double spend the nodes did not see): the
+				// cemented block must displace whatever the pool holds, whatever its priority
 				for _, a := range users {
-					if t.Bool() {
+					switch t.Choose(4) {
+					case 0, 1:
 						for _, b := range mx.pool[a] {
 							p.Bridge.AddAccountBlocks([]*nom.AccountBlock{nomsim.CloneBlock(b)})
+						}
+					case 2:
+						if len(mx.pool[a]) > 0 {
+							head := p.Chain.GetFrontierAccountStore(a).Identifier()
+							if head == mx.head[a] {
+								if tx := candidate(r, p, w, a, head, t.Choose(3)); tx != nil && tx.Block.Hash != mx.pool[a][0].Hash {
+									p.CreateAccountBlock(tx)
+									r.Probe("cemented-block-conflicts-with-pool")
+								}
+							}
 						}
 					}
 				}
